@@ -12,11 +12,28 @@ import (
 
 // Violation is one failed oracle clause.
 type Violation struct {
-	Property string `json:"property"`
-	Kind     string `json:"kind"`
-	Detail   string `json:"detail"`
-	Step     int    `json:"step"` // index of the scenario step (search, event) it was observed at
-	Finding  string `json:"finding,omitempty"`
+	Property string   `json:"property"`
+	Kind     string   `json:"kind"`
+	Detail   string   `json:"detail"`
+	Step     int      `json:"step"` // index of the scenario step (search, event) it was observed at
+	Finding  string   `json:"finding,omitempty"`
+	Ctx      *RootCtx `json:"ctx,omitempty"` // the root the violation was observed on (C06/C07)
+}
+
+// RootCtx identifies a root with its history, for known-finding predicates.
+type RootCtx struct {
+	StartFEN string   `json:"start_fen"`
+	Moves    []string `json:"moves,omitempty"`
+	Aborted  bool     `json:"aborted"`
+	Move     string   `json:"move"`
+}
+
+func rootCtx(g *ref.Game, res *SearchResult) *RootCtx {
+	c := &RootCtx{StartFEN: g.Start.FEN(), Aborted: res.Aborted, Move: res.Move}
+	for _, m := range g.Moves {
+		c.Moves = append(c.Moves, m.String())
+	}
+	return c
 }
 
 func (v Violation) String() string {
@@ -76,7 +93,7 @@ func maskTime(l string) string {
 func checkC06(g *ref.Game, req Request, res *SearchResult, step int) []Violation {
 	var out []Violation
 	add := func(kind, detail string) {
-		out = append(out, Violation{Property: "C06", Kind: kind, Detail: detail, Step: step})
+		out = append(out, Violation{Property: "C06", Kind: kind, Detail: detail, Step: step, Ctx: rootCtx(g, res)})
 	}
 	root := g.Cur()
 	if res.Panic != "" {
@@ -134,7 +151,7 @@ func checkC06(g *ref.Game, req Request, res *SearchResult, step int) []Violation
 func checkC07(g *ref.Game, req Request, res *SearchResult, step int) []Violation {
 	var out []Violation
 	add := func(kind, detail string) {
-		out = append(out, Violation{Property: "C07", Kind: kind, Detail: detail, Step: step})
+		out = append(out, Violation{Property: "C07", Kind: kind, Detail: detail, Step: step, Ctx: rootCtx(g, res)})
 	}
 	if res.Panic != "" {
 		return nil
